@@ -373,6 +373,37 @@ class OpTap:
                      "check_cache", "get_subtree_tasks", "record_execution"):
             self._orig[name] = getattr(self.b, name)
             setattr(self.b, name, self._wrap(name))
+        # the scheduler's subtree-task bookkeeping: what `_resolve_job_main_thread` makes of the finished children
+        self._orig_resolve = scheduler._resolve_job_main_thread
+        scheduler._resolve_job_main_thread = self._resolve
+
+    def _resolve(self, job, result):
+        I, r = self.I, self.repo
+        try:
+            cached = bool(job.call_hash)
+            cv = job.get_option("check_valid", "full")
+            shallow = str(getattr(cv, "name", cv)).upper() == "SHALLOW"
+            children = [(c.call_hash, sorted(I.id(t.hash) for t in c.subtree_tasks)) for c in job.child_jobs]
+            reg = sorted(I.id(h) for h in self.s.task_registry.task_hashes)
+            pre = dict(task=job.task.hash, call=job.call_hash)
+        except Exception as e:  # noqa: BLE001
+            pre = None
+            self.events.append(dict(req=None, kind="harness-error", expect=repr(e), name="resolve"))
+        out = self._orig_resolve(job, result)
+        if pre is not None:
+            try:
+                post = sorted({I.id(t.hash) for t in job.subtree_tasks})
+                if cached:
+                    req = (f"(cachedsub i{r} {_sxv(reg)} i{I.id(pre['task'])} {'T' if shallow else 'F'} "
+                           f"i{I.id(pre['call'])})")
+                else:
+                    ch = " ".join(f"({_sxv(I.opt(c))} {_sxv(sub)})" for c, sub in children)
+                    req = f"(execsub i{I.id(pre['task'])} ({ch}))"
+                self.events.append(dict(req=req, kind="read", name="subtree_tasks", expect=post, dumps=[], err=None,
+                                        repo=r))
+            except Exception as e:  # noqa: BLE001
+                self.events.append(dict(req=None, kind="harness-error", expect=repr(e), name="resolve"))
+        return out
 
     def remove(self):
         for name, f in self._orig.items():
@@ -380,6 +411,10 @@ class OpTap:
                 delattr(self.b, name)
             except AttributeError:
                 pass
+        try:
+            del self.s._resolve_job_main_thread
+        except AttributeError:
+            pass
         self.tap.remove()
 
     # -- helpers
@@ -582,6 +617,12 @@ def compare_events(ctx, events, replies, case, tables=REC_TABLES, what="recordin
                 m = [got[0], got[1], str(got[2])]
                 if m != ev["expect"]:
                     ctx.mismatch("check_cache answer differs", dict(case=case, req=ev["req"][:300]), m, ev["expect"])
+                    bad += 1
+            elif ev["name"] == "subtree_tasks":
+                if sorted(set(got)) != ev["expect"]:
+                    ctx.mismatch("Job.subtree_tasks after _resolve_job_main_thread differs from the model's "
+                                 "calc_subtree_tasks / _get_subtree_tasks", dict(case=case, req=ev["req"][:300]),
+                                 sorted(set(got)), ev["expect"])
                     bad += 1
             else:
                 if sorted(got) != ev["expect"]:
